@@ -25,6 +25,28 @@ Section LitLoud.
   Definition refused (bl : base * lit) : Prop := exists e, jenc (fst bl) (snd bl) = Err e.
   Definition krefused (bl : base * lit) : Prop := exists e, kenc (fst bl) (snd bl) = Err e.
 
+  (* a refused literal inside a key makes the key's encoding fail *)
+  Lemma enc_key_err : forall k,
+    (exists bl, In bl (key_of k) /\ krefused bl) -> exists e, enc_key JK kenc k = Err e.
+  Proof.
+    induction k using val_ind'; intros [bl [Hi Hr]]; simpl in Hi; try contradiction.
+    - destruct Hi as [<-|[]]. destruct Hr as [e He]. simpl in He. simpl. rewrite He. simpl. eauto.
+    - destruct Hi as [<-|[]]. destruct Hr as [e He]. simpl in He. simpl. rewrite He. simpl. eauto.
+    - apply in_flat_map in Hi. destruct Hi as [fv [Hfv Hi]].
+      rewrite Forall_forall in H. destruct (H _ Hfv (ex_intro _ bl (conj Hi Hr))) as [e He].
+      destruct (mapM_err (fun fv => do j <- enc_key JK kenc (snd fv); Ok (fst fv, j)) fs) as [e' He'].
+      { intros [g u] _. simpl. destruct (enc_key JK kenc u) eqn:Eu; simpl; try discriminate.
+        exfalso. eapply enc_key_np; eauto. }
+      { exists fv. split; [exact Hfv|]. rewrite He. simpl. eauto. }
+      simpl. rewrite He'. simpl. eauto.
+    - apply in_flat_map in Hi. destruct Hi as [x [Hx Hi]].
+      rewrite Forall_forall in H. destruct (H _ Hx (ex_intro _ bl (conj Hi Hr))) as [e He].
+      destruct (mapM_err (enc_key JK kenc) es) as [e' He'].
+      { intros a _. now apply enc_key_np. }
+      { exists x. split; eauto. }
+      simpl. rewrite He'. simpl. eauto.
+  Qed.
+
   Lemma entry_np : forall kv : val * val,
     (do i <- ENC 0 (snd kv); do jk <- enc_key JK kenc (fst kv); Ok (jk, i)) <> Panic.
   Proof.
@@ -97,9 +119,7 @@ Section LitLoud.
         destruct Hsub as [Hv|[Hk|Hv]].
         - destruct (Hb 0%nat (or_introl Hv)) as [e He]. rewrite He. simpl. eauto.
         - apply bind_err_r; [apply NP|]. intros i _.
-          destruct Hk as [bl [Hi [e He]]].
-          destruct ka; simpl in Hi; try contradiction; destruct Hi as [<-|[]]; simpl in He; simpl;
-            rewrite He; simpl; eauto.
+          destruct (enc_key_err ka Hk) as [e He]. rewrite He. simpl. eauto.
         - destruct (Hb 0%nat (or_intror Hv)) as [e He]. rewrite He. simpl. eauto. }
       rewrite He'. simpl. eauto.
     - destruct Hin as [[bl [[] _]]|[bl [[] _]]].
